@@ -7,11 +7,17 @@ VARIABLES tid, l, ok, why
 vars == <<tid, l, ok, why>>
 Init == tid \in 1..Len(Traces) /\ l = 0 /\ ok = TRUE /\ why = "-"
 
-\* e: exc, view (sequence of <<item,row>>), heights, focus, crow, h, click = <<item, selectable(0/1)>> or <<>>
+\* e: exc, view (sequence of <<item,row>>), heights, focus, crow, h, click = <<item, selectable(0/1)>> or <<>>,
+\*    cc = what get_cursor_coords answered just before this rendering (<<>> not asked, <<-1,-1>> None, <<col,row>>)
+\* The exception of a render / get_cursor_coords call (with any box height, zero rows included, and whatever requests are
+\* still pending) is a violation; an exception raised by the walker's own list operation is not recorded here (not a C07
+\* matter) but the rendering that follows it is judged like any other.
 Verdict(e) ==
   IF e.exc # "" THEN "never_raises"
+  ELSE IF ~FocusIsItem(e.focus, e.heights) THEN "focus_is_an_item_of_the_list"
   ELSE LET v == ViewVerdict(e.view, e.heights, e.focus, e.crow, e.h) IN
        IF v # "-" THEN v
+       ELSE IF ~CursorCoordsAgree(e.view, e.focus, e.crow, e.cc) THEN "cursor_coords_agree_with_rendering"
        ELSE IF e.click # <<>> /\ e.click[2] = 1 /\ e.focus # e.click[1] THEN "press_on_visible_selectable_item_focuses_it"
        ELSE "-"
 
